@@ -42,9 +42,9 @@ Fixpoint spec_run (fuel : nat) (t : tree) (m args : str) (o : Z) (p : option str
   | S f =>
       let T := tab_of t in
       let hits := scan_hits (t_ports T) 0 m args in
-      match p, tables_of T, hits with
-      | Some l, Some _, [] => if t_dflt T then [EvDefault (t_id T) m o (Some l)] else []
-      | _, _, _ => flat_map (visit (spec_run f) t m args o p) hits
+      match hits with
+      | [] => if t_dflt T then [EvDefault (t_id T) m o p] else []
+      | _ => flat_map (visit (spec_run f) t m args o p) hits
       end
   end.
 
@@ -126,7 +126,7 @@ Proof.
 Qed.
 
 Lemma hashed_hits : forall T H m args,
-  tables_of T = Some H -> lit_table T -> assoc_ok T -> addr_chars m -> seven_bit m ->
+  tables_of T = Some H -> lit_table T -> assoc_ok T -> addr_chars m -> byte_str m ->
   match lookup_hit T H m args with
   | LErr => False
   | LMiss => scan_hits (t_ports T) 0 m args = []
@@ -186,15 +186,15 @@ Proof. intros. apply snipn_suffix. Qed.
 Lemma addr_chars_snip : forall name m, addr_chars m -> addr_chars (snipk name m).
 Proof. intros name m H. destruct (snipk_suffix name m) as [x E]. rewrite E in H. eapply addr_chars_suffix; eauto. Qed.
 
-Lemma seven_bit_snip : forall name m, seven_bit m -> seven_bit (snipk name m).
+Lemma byte_str_snip : forall name m, byte_str m -> byte_str (snipk name m).
 Proof.
-  intros name m H. destruct (snipk_suffix name m) as [x E]. unfold seven_bit in *. rewrite E in H.
+  intros name m H. destruct (snipk_suffix name m) as [x E]. unfold byte_str in *. rewrite E in H.
   apply Forall_app in H. tauto.
 Qed.
 
 (* the statement for one level and everything below it, with location buffer *)
 Definition run_loc_ok (f : nat) : Prop :=
-  forall t m args st l, tree_ok t -> (depth t <= f)%nat -> addr_chars m -> seven_bit m ->
+  forall t m args st l, tree_ok t -> (depth t <= f)%nat -> addr_chars m -> byte_str m ->
     loc st = Some l -> l <> [] ->
     exists dp, dispatch_f f t m args false st =
       {| loc := Some l;
@@ -207,7 +207,7 @@ Proof. intros [|c l] a H; [congruence | discriminate]. Qed.
 
 Lemma visit_step_loc : forall f t args, run_loc_ok f -> tree_ok t -> (depth t <= S f)%nat ->
   forall m l obj0 i name sub pe s,
-  addr_chars m -> seven_bit m -> l <> [] ->
+  addr_chars m -> byte_str m -> l <> [] ->
   loc s = Some l -> obj s = obj0 -> 0 <= i ->
   nth_error (t_ports (tab_of t)) (Z.to_nat i) = Some (name, sub) ->
   exists dp,
@@ -230,7 +230,7 @@ Proof.
     { rewrite depth_node in Hd. pose proof (depth_sub _ _ _ Es). lia. }
     unfold leaf_event, add_log, set_obj. cbn [loc matches obj dport log].
     edestruct (IH s' (snipk name m) args) as [dp E];
-      [eapply Hsubs; eassumption | exact Hd' | now apply addr_chars_snip | now apply seven_bit_snip
+      [eapply Hsubs; eassumption | exact Hd' | now apply addr_chars_snip | now apply byte_str_snip
        | | apply app_nonempty; exact Hl | rewrite E]; [reflexivity|].
     cbn [loc matches obj dport log]. eexists. unfold restore. cbn [loc set_obj].
     unfold set_loc. cbn [loc matches obj dport log]. rewrite firstn_app_exact.
@@ -260,7 +260,7 @@ Proof.
 Qed.
 
 Lemma fold_steps_loc : forall f t args, run_loc_ok f -> tree_ok t -> (depth t <= S f)%nat ->
-  forall m l obj0, addr_chars m -> seven_bit m -> l <> [] ->
+  forall m l obj0, addr_chars m -> byte_str m -> l <> [] ->
   forall hits, (forall h, In h hits -> hit_in_table (tab_of t) h) ->
   forall s, loc s = Some l -> obj s = obj0 ->
   exists dp,
@@ -354,13 +354,17 @@ Proof.
                   Hm H7 Hl eq_refl eq_refl Hj Hp) as [dp' E].
       cbn [tab_of] in E. rewrite E. cbn [flat_map matches log]. rewrite app_nil_r. eauto.
   - (* linear *)
-    rewrite scan_loc_fold.
+    rewrite scan_loc_fold, (any_match_hits (t_ports T) 0 m args).
     edestruct (fold_steps_loc f (Node T subs) args IH Hok Hd m l ob Hm H7 Hl
                  (scan_hits (t_ports T) 0 m args)) as [dp' E];
       [intros h Hh; eapply scan_hits_in_table; eassumption | | | cbn [tab_of] in E; rewrite E];
       [reflexivity | reflexivity |].
-    cbn [matches log]. exists dp'.
-    destruct (scan_hits (t_ports T) 0 m args); reflexivity.
+    cbn [matches log].
+    destruct (scan_hits (t_ports T) 0 m args) as [|h0 hr]; [|exists dp'; reflexivity].
+    cbn [flat_map rev app]. destruct (t_dflt T).
+    + exists dp'. unfold call_default, tree_dh, inc_matches, add_log, set_obj.
+      cbn [loc matches obj dport log tab_of]. f_equal; try reflexivity; unfold leaf_count; cbn; lia.
+    + exists dp'. f_equal; try reflexivity; unfold leaf_count; cbn; lia.
 Qed.
 
 (* ---- the descent without location buffer ----------------------------------- *)
@@ -398,7 +402,7 @@ Proof.
   induction f as [|f IH]; intros t m args st Hd Ls.
   { pose proof (depth_pos t). lia. }
   rewrite dispatch_f_S. unfold dispatch_table. rewrite Ls. cbn [spec_run].
-  rewrite scan_noloc_fold.
+  rewrite scan_noloc_fold, (any_match_hits (t_ports (tab_of t)) 0 m args).
   assert (G : forall hits, (forall h, In h hits -> hit_in_table (tab_of t) h) ->
             forall s, loc s = None -> obj s = obj st ->
             exists dp, fold_left (step_noloc (tree_cb f t args) (t_id (tab_of t)) m (obj st)) hits s =
@@ -414,7 +418,10 @@ Proof.
       cbn [matches log]. exists dp'. f_equal. rewrite rev_app_distr, <- app_assoc. reflexivity. }
   destruct (G (scan_hits (t_ports (tab_of t)) 0 m args)
               (fun h Hh => scan_hits_in_table _ _ _ _ Hh) st Ls eq_refl) as [dp E].
-  rewrite E. exists dp. reflexivity.
+  rewrite E.
+  destruct (scan_hits (t_ports (tab_of t)) 0 m args) as [|h0 hr]; [|exists dp; reflexivity].
+  cbn [flat_map rev app]. destruct (t_dflt (tab_of t)); exists dp; [|reflexivity].
+  unfold call_default_noloc, tree_dh, add_log, set_obj. cbn [loc matches obj dport log]. reflexivity.
 Qed.
 
 (* ---- a root dispatch -------------------------------------------------------- *)
@@ -437,7 +444,7 @@ Definition spec_events (t : tree) (m args : str) (o : Z) (with_loc : bool) : lis
   spec_run (depth t) t (strip m) args o (if with_loc then Some [47] else None).
 
 Theorem dispatch_with_loc : forall t m args o,
-  tree_ok t -> addr_chars (strip m) -> seven_bit (strip m) ->
+  tree_ok t -> addr_chars (strip m) -> byte_str (strip m) ->
   exists dp, dispatch t m args true o =
     {| loc := Some [47]; matches := leaf_count (spec_events t m args o true); obj := o;
        dport := dp; log := rev (spec_events t m args o true) |}.
@@ -481,7 +488,6 @@ Proof.
     specialize (IH s (snipk name m) args (child_obj o (t_id (tab_of t)) i (port_index name m))
                    (option_map (fun l => l ++ app_of name m pe) p)).
     rewrite Forall_forall in IH. now apply IH. }
-  destruct p as [l|]; [|apply G]. destruct (tables_of (tab_of t)); [|apply G].
   destruct (scan_hits (t_ports (tab_of t)) 0 m args) eqn:E; [|rewrite <- E; apply G].
   destruct (t_dflt (tab_of t)); repeat constructor.
 Qed.
@@ -490,7 +496,7 @@ Qed.
 Definition strip_ev (e : event) : list event :=
   match e with
   | Ev a b c d _ p lf => [Ev a b c d None p lf]
-  | EvDefault _ _ _ _ => []
+  | EvDefault a c d _ => [EvDefault a c d None]
   | EvError => [EvError]
   end.
 Definition strip_loc (l : list event) : list event := flat_map strip_ev l.
@@ -509,7 +515,6 @@ Proof.
     unfold visit. cbn [option_map strip_loc flat_map strip_ev app]. f_equal.
     destruct (nth_error (subs_of t) (Z.to_nat i)) as [[s|]|]; [|reflexivity|reflexivity].
     apply IH. }
-  destruct (tables_of (tab_of t)); [|apply G].
   destruct (scan_hits (t_ports (tab_of t)) 0 m args) eqn:E; [|rewrite <- E; apply G].
   destruct (t_dflt (tab_of t)); reflexivity.
 Qed.
@@ -597,8 +602,6 @@ Proof.
   specialize (IH (S g) s (snipk name m) args
     (child_obj o (t_id T) (Z.of_nat n) (port_index name m))
     (option_map (fun l => l ++ app_of name m pe) p) Hs Hrest). cbn [pred] in IH.
-  destruct (option_map (fun l => l ++ app_of name m pe) p) as [l'|]; [|exact IH].
-  destruct (tables_of (tab_of s)); [|exact IH].
   destruct (scan_hits (t_ports (tab_of s)) 0 (snipk name m) args) eqn:Eh; [|exact IH].
   (* no hit below although the path goes on: impossible *)
   exfalso. destruct rest as [|n2 rest2]; [contradiction|].
@@ -614,8 +617,7 @@ Proof.
   cbn [spec_run]. rewrite <- (spec_run_chain path (S g) t m args o p Hd Ha). cbn [pred].
   destruct path as [|n rest]; [contradiction|]. cbn [addressed] in Ha.
   destruct Ha as (name & sub & pe & (En & M & U) & _).
-  rewrite (scan_hits_sole _ 0 m args n name sub pe En M U).
-  destruct p; [destruct (tables_of (tab_of t))|]; reflexivity.
+  rewrite (scan_hits_sole _ 0 m args n name sub pe En M U). reflexivity.
 Qed.
 
 Lemma chain_one_leaf : forall path t m args o p,
@@ -902,7 +904,6 @@ Proof.
       + rewrite depth_node in Hd. pose proof (depth_sub _ _ _ Es). lia.
       + rewrite Hdesc. apply (addr_ok_suffix (app_of (render p) m pe)). now rewrite <- Em.
       + rewrite Hdesc. exact Efull. }
-  destruct (tables_of (tab_of t)); [|exact G].
   destruct (scan_hits (t_ports (tab_of t)) 0 m args) eqn:E; [|exact G].
   destruct (t_dflt (tab_of t)); repeat constructor.
 Qed.
@@ -911,7 +912,7 @@ Qed.
 (* the property theorems for a root dispatch                                 *)
 (* ======================================================================== *)
 Definition root_ok (t : tree) (m : str) : Prop :=
-  tree_ok t /\ addr_chars (strip m) /\ seven_bit (strip m).
+  tree_ok t /\ addr_chars (strip m) /\ byte_str (strip m).
 
 Theorem tree_matches_count : forall t m args o, root_ok t m ->
   let d := dispatch t m args true o in
@@ -939,6 +940,66 @@ Proof.
   destruct (dispatch_with_loc t m args o Hok Hm H7) as [dp E].
   destruct (dispatch_without_loc t m args o) as [dp' E'].
   rewrite E, E'. cbn [log]. rewrite !rev_involutive. apply spec_run_strategy.
+Qed.
+
+(* ---- the equalities above are not about the out-of-fuel event -------------- *)
+(* spec_run returns [EvError] only at fuel 0; with fuel >= depth that branch is
+   never reached, whatever the tree, the message and the object are *)
+Lemma spec_run_no_error : forall f t m args o p,
+  (depth t <= f)%nat -> ~ In EvError (spec_run f t m args o p).
+Proof.
+  induction f as [|f IH]; intros t m args o p Hd; [pose proof (depth_pos t); lia|].
+  cbn [spec_run].
+  assert (G : ~ In EvError (flat_map (visit (spec_run f) t m args o p)
+                               (scan_hits (t_ports (tab_of t)) 0 m args))).
+  { intros He. apply in_flat_map in He as ([[[i name] sub] pe] & _ & He).
+    unfold visit in He. destruct He as [He|He]; [discriminate|].
+    destruct t as [T subs]. cbn [subs_of tab_of] in *.
+    destruct (nth_error subs (Z.to_nat i)) as [[s|]|] eqn:Es; try contradiction.
+    revert He. apply IH. rewrite depth_node in Hd. pose proof (depth_sub _ _ _ Es). lia. }
+  destruct (scan_hits (t_ports (tab_of t)) 0 m args) eqn:E; [|exact G].
+  destruct (t_dflt (tab_of t)); [intros [H|[]]; discriminate | intros []].
+Qed.
+
+Lemma spec_events_no_error : forall t m args o b, ~ In EvError (spec_events t m args o b).
+Proof. intros. unfold spec_events. apply spec_run_no_error. lia. Qed.
+
+(* so a root dispatch never logs the model's error event (assoc read out of
+   range / a match without m_end / out of fuel): with a location buffer under
+   root_ok, without one for every tree and message *)
+Theorem tree_no_error : forall t m args o,
+  ~ In EvError (log (dispatch t m args false o)) /\
+  (root_ok t m -> ~ In EvError (log (dispatch t m args true o))).
+Proof.
+  intros t m args o. split.
+  - destruct (dispatch_without_loc t m args o) as [dp E]. rewrite E. cbn [log].
+    rewrite <- in_rev. apply spec_events_no_error.
+  - intros (Hok & Hm & H7). destruct (dispatch_with_loc t m args o Hok Hm H7) as [dp E].
+    rewrite E. cbn [log]. rewrite <- in_rev. apply spec_events_no_error.
+Qed.
+
+(* the default handler of the root table: when no port of it matches, both
+   runs log exactly its call (none if the table has no handler) - whatever
+   lookup strategy the table got *)
+Theorem tree_default_both_runs : forall t m args o b,
+  scan_hits (t_ports (tab_of t)) 0 (strip m) args = [] ->
+  spec_events t m args o b =
+  if t_dflt (tab_of t)
+  then [EvDefault (t_id (tab_of t)) (strip m) o (if b then Some [47] else None)] else [].
+Proof.
+  intros t m args o b H. unfold spec_events.
+  destruct (depth t) as [|f] eqn:D; [pose proof (depth_pos t); lia|].
+  cbn [spec_run]. rewrite H. reflexivity.
+Qed.
+
+(* a table without matching port runs its default handler in both runs: the
+   stripped events of tree_strategy_independent include the EvDefault ones *)
+Lemma strip_loc_defaults : forall l,
+  length (filter (fun e => match e with EvDefault _ _ _ _ => true | _ => false end) (strip_loc l)) =
+  length (filter (fun e => match e with EvDefault _ _ _ _ => true | _ => false end) l).
+Proof.
+  induction l as [|e l IH]; [reflexivity|]. unfold strip_loc in *. cbn [flat_map].
+  rewrite filter_app, app_length, IH. destruct e; reflexivity.
 Qed.
 
 Theorem tree_loc_full_address : forall t m args o,
@@ -969,7 +1030,7 @@ Qed.
 (* ---- non-vacuity: the tree { a#2/ -> { b, c:i } (hashed), d } ------------ *)
 Definition tab_inner : table :=
   {| t_id := 1; t_dflt := false; t_ports := [([98], false); ([99; 58; 105], false)];
-     t_pos := [0]; t_assoc := repeat 0 99 ++ [1] ++ repeat 0 27 |}.
+     t_pos := [0]; t_assoc := repeat 0 99 ++ [1] ++ repeat 0 156 |}.
 Definition tab_root : table :=
   {| t_id := 0; t_dflt := false; t_ports := [([97; 35; 50; 47], true); ([100], false)];
      t_pos := []; t_assoc := [] |}.
@@ -1034,6 +1095,25 @@ Lemma tree_ex_run :
      log := [Ev 1 1 [99] 133 (Some [47; 97; 49; 47; 99]) (Some (1, 1)) true;
              Ev 0 0 [97; 49; 47; 99] 1 (Some [47; 97; 49; 47]) (Some (0, 0)) false] |}.
 Proof. vm_compute. reflexivity. Qed.
+
+(* an address with bytes >= 0x80 below the enumerated port: "/a1/\xe9\xff" goes
+   through the hashed table { b, c:i } (hash of the byte 233 - an index the
+   127-entry table of the pinned code did not have), finds no port there, and
+   the same single callback runs without buffer *)
+Definition msg_hi : str := [47; 97; 49; 47; 233; 255].
+Lemma tree_ex_highbyte :
+  root_ok tree_ex msg_hi /\
+  dispatch tree_ex msg_hi [] true 1 =
+  {| loc := Some [47]; matches := 0; obj := 1; dport := Some (0, 0);
+     log := [Ev 0 0 [97; 49; 47; 233; 255] 1 (Some [47; 97; 49; 47]) (Some (0, 0)) false] |} /\
+  dispatch tree_ex msg_hi [] false 1 =
+  {| loc := None; matches := 0; obj := 1; dport := Some (0, 0);
+     log := [Ev 0 0 [97; 49; 47; 233; 255] 1 None (Some (0, 0)) false] |}.
+Proof.
+  split; [|split; vm_compute; reflexivity].
+  split; [exact (proj1 (proj1 tree_ex_ok))|].
+  split; [repeat constructor; discriminate | repeat constructor; lia].
+Qed.
 
 (* ---- non-vacuity for names of several address components -------------------
    { a#2/b#3/ -> { x, u/v/ -> { w } }, a#2/k#2:i } with /a1/b2/u/v/w and /a1/k0 *)
@@ -1191,17 +1271,28 @@ Proof.
 Qed.
 
 (* for such a table the two runs of dispatch_table call the same ports in the
-   same order, whatever the names are (alternatives, '*', '#', anything) *)
+   same order, whatever the names are (alternatives, '*', '#', anything), and
+   then - in both runs - the default handler iff there is one and no port
+   matched *)
+Definition after_scan (T : table) (hits : list hit) (call : dstate -> dstate) (s : dstate) : dstate :=
+  match hits with [] => if t_dflt T then call s else s | _ :: _ => s end.
+
 Theorem unhashed_same_calls : forall cb dh T m args st l,
   tables_of T = None -> loc st = Some l -> l <> [] ->
   dispatch_table cb dh T m args false st =
-  fold_left (step_loc cb (t_id T) m (obj st) l) (scan_hits (t_ports T) 0 m args) st /\
+  after_scan T (scan_hits (t_ports T) 0 m args) (call_default dh m (obj st))
+    (fold_left (step_loc cb (t_id T) m (obj st) l) (scan_hits (t_ports T) 0 m args) st) /\
   forall st', loc st' = None ->
   dispatch_table cb dh T m args false st' =
-  fold_left (step_noloc cb (t_id T) m (obj st')) (scan_hits (t_ports T) 0 m args) st'.
+  after_scan T (scan_hits (t_ports T) 0 m args) (call_default_noloc dh m (obj st'))
+    (fold_left (step_noloc cb (t_id T) m (obj st')) (scan_hits (t_ports T) 0 m args) st').
 Proof.
   intros cb dh T m args st l HT Ls Hl. split.
-  - unfold dispatch_table. rewrite Ls, HT. destruct l as [|c l']; [congruence|].
-    rewrite scan_loc_fold. f_equal. destruct st; cbn in *; subst; reflexivity.
-  - intros st' L'. unfold dispatch_table. rewrite L'. apply scan_noloc_fold.
+  - unfold dispatch_table, after_scan. rewrite Ls, HT. destruct l as [|c l']; [congruence|].
+    rewrite scan_loc_fold, (any_match_hits (t_ports T) 0 m args).
+    replace (set_loc st (Some (c :: l'))) with st by (destruct st; cbn in *; subst; reflexivity).
+    destruct (scan_hits (t_ports T) 0 m args); reflexivity.
+  - intros st' L'. unfold dispatch_table, after_scan. rewrite L'.
+    rewrite scan_noloc_fold, (any_match_hits (t_ports T) 0 m args).
+    destruct (scan_hits (t_ports T) 0 m args); reflexivity.
 Qed.
